@@ -44,6 +44,27 @@ var c09Progs = []string{
 	"(defun app (&rest xs) (append! (append 'vector xs) 7)) (apply app '(3 1 2))",
 	"(defmacro m (&rest xs) (quasiquote (quote (unquote (stable-sort < xs))))) (list (m 3 1 2) (m 3 1 2))",
 	"(let ((f (lambda (&rest xs) (stable-sort < xs)))) (list (apply f '(3 1 2)) (apply f '(3 1 2))))",
+	// non-mutating constructors called with NO extra values on a literal, result mutated in place
+	"(stable-sort < (append 'vector '(3 1 2)))",
+	"(stable-sort < (append 'list '(3 1 2)))",
+	"(stable-sort < (concat 'list '(3 1 2)))",
+	"(stable-sort < (concat 'vector '(3 1 2)))",
+	"(stable-sort < (append 'vector (cdr '(9 3 1 2))))",
+	"(stable-sort < (append 'vector (slice 'list '(9 3 1 2) i j)))",
+	"(let ((v (append 'vector '(3 1 2)))) (stable-sort < v) (append! v 0) v)",
+	// literals under a second quote, reached through eval, an identity macro, a nested literal
+	"(stable-sort < (eval ''(3 1 2)))",
+	"(let ((lit ''(3 1 2))) (stable-sort < (eval lit)) lit)",
+	"(defmacro idm (x) x) (stable-sort < (idm '(3 1 2))) (stable-sort < (eval (idm ''(3 1 2))))",
+	"(stable-sort < (car '('(3 1 2) 5)))",
+	"(stable-sort < (eval (car '(''(3 1 2)))))",
+	"(stable-sort < (eval '[3 1 2]))",
+	"(stable-sort < (second ''(3 1 2)))",
+	// the literal is READ before the in-place mutation: a later load sees the difference
+	"(let ((l '(3 1 2))) (list (first l) (stable-sort (lambda (a b) (< a b)) (append 'vector l))))",
+	"(let ((l '(3 1 2))) (list (first l) (stable-sort (lambda (a b) (< a b)) (concat 'list l))))",
+	"(let ((l ''(3 1 2))) (list (first (eval l)) (stable-sort (lambda (a b) (< a b)) (eval l))))",
+	"(defun lit () '(3 1 2)) (list (first (lit)) (stable-sort (lambda (a b) (< a b)) (append 'vector (lit))) (first (lit)))",
 }
 
 // every operator and macro that takes the program's own nodes apart and rebuilds forms from them
